@@ -116,6 +116,9 @@ Proof.
   rewrite L, rstrip_ws_tail by exact Hw. rewrite rstrip_snoc, Hz. reflexivity.
 Qed.
 
+Lemma fstrip_strip l : fstrip l = strip l.
+Proof. unfold fstrip, strip, rstrip. now rewrite !rev_append_rev, !app_nil_r. Qed.
+
 (* ------------------------------------------------ join / newline-separated texts *)
 Definition nl_concat (xs : list bytes) : bytes := concat (map (cons 10) xs).
 
